@@ -65,6 +65,9 @@ def check_case(acc, src, origin):
     if debug_field_quirk(ptoks):
         acc.count("skipped_reference_defect_in_debug_field")
         return
+    if raw_spec_escape_quirk(ptoks):
+        acc.count("skipped_reference_defect_raw_spec_escape")
+        return
     _drop_empty_spec_constants(cp)
     case = {"src": src, "origin": origin}
     acc.count("class_" + origin)
@@ -123,8 +126,38 @@ def _drop_empty_spec_constants(tree):
     for n in ast.walk(tree):
         if isinstance(n, ast.FormattedValue) and isinstance(n.format_spec, ast.JoinedStr):
             vals = n.format_spec.values
+            # 3.12.1 also leaves the text after a \\N{...} escape of a spec in a Constant of its own (and an empty one when nothing follows)
+            merged = []
+            for v in vals:
+                if merged and isinstance(v, ast.Constant) and isinstance(merged[-1], ast.Constant) and isinstance(v.value, str) and isinstance(merged[-1].value, str):
+                    merged[-1].value += v.value
+                    merged[-1].end_lineno, merged[-1].end_col_offset = v.end_lineno, v.end_col_offset
+                else:
+                    merged.append(v)
+            vals[:] = merged
             if len(vals) >= 2 and isinstance(vals[-1], ast.Constant) and vals[-1].value == "" and isinstance(vals[-2], ast.FormattedValue):
                 vals.pop()
+
+
+def raw_spec_escape_quirk(ptoks):
+    """CPython 3.12.1 decodes backslash escapes in the format spec of a *raw* f-string (rf'{a:\\n}' yields a newline; rf'{x:\\N{y}}' is a
+    UnicodeDecodeError): a raw f-string with a backslash in a spec is outside what this reference can judge"""
+    stack = []  # (is_raw, brace depth at which a spec is open or None)
+    for t in ptoks:
+        if t.type == pytok.FSTRING_START:
+            stack.append(["r" in t.string.rstrip("'\"").lower(), 0, set()])
+        elif t.type == pytok.FSTRING_END and stack:
+            stack.pop()
+        elif stack and t.type == pytok.OP and t.string == "{":
+            stack[-1][1] += 1
+        elif stack and t.type == pytok.OP and t.string == "}":
+            stack[-1][2].discard(stack[-1][1])
+            stack[-1][1] -= 1
+        elif stack and t.type == pytok.OP and t.string == ":" and stack[-1][1] > 0:
+            stack[-1][2].add(stack[-1][1])
+        elif stack and t.type == pytok.FSTRING_MIDDLE and stack[-1][0] and stack[-1][1] in stack[-1][2] and "\\" in t.string:
+            return True
+    return False
 
 
 def debug_field_quirk(ptoks):
@@ -255,7 +288,9 @@ EXPRS = ["a", "a.b", "f(x)", "a + 1", "a[0]", "a['k']", "(lambda: 0)()", "(a if 
          "a != b", "a == b", "x", "y1", "-a", "a, b", "*a, b" if False else "(a, b)", "len(s)", "a  ", " a", "a  +  b", "3.14", "0x1f", "'s'", '"t"', "d[\"k\"]", "a := 1" if False else "(a := 1)",
          "a<b>c", "a >= b", "a|b", "a or b"]
 CONV = ["", "", "", "!r", "!s", "!a"]
-SPECS = ["", "", "", ":", ":>10", ":.2f", ":{w}", ":{w}.{p}", ":>{w}.{p}f", ":{w}x", ":x{w}", ":%Y-%m-%d", ":^10", ":{ w }", ":{w!r}", ":{w:>{z}}", ": ", ":#x", ":\\n" if False else ":,"]
+SPECS = ["", "", "", ":", ":>10", ":.2f", ":{w}", ":{w}.{p}", ":>{w}.{p}f", ":{w}x", ":x{w}", ":%Y-%m-%d", ":^10", ":{ w }", ":{w!r}", ":{w:>{z}}", ": ", ":#x", ":\\n" if False else ":,",
+         # a spec that starts with '=' (not the walrus), a backslash before a brace, a named escape, escapes
+         ":=^10", ":=", ":=+6d", ":\\{w}", ":\\", ":x\\{w}\\", ":\\N{EM DASH}", ":\\N{BULLET}>5", ":\\t>4", ":\\\\"]
 
 
 def gen_field(rnd, quote, depth):
